@@ -714,3 +714,113 @@ func (h H) rollOverFits(rule string) {
 	}
 	h.C.Floor(rule+" (roll-over sites)", n, 1)
 }
+
+// dirListingLiteral (C10.8 / C14.7 / C05.6): the files of a storage directory
+// (log segments, term/vote and identity values, snapshot labels) are found by
+// reading the directory and filtering names. A pattern match over a path that
+// contains the directory (filepath.Glob(filepath.Join(dir, "*.log"))) reads
+// the directory's own name as a pattern: under a path with a glob
+// metacharacter it matches nothing, and a reopen silently starts from an
+// empty log, term 0 and no snapshot.
+func (h H) dirListingLiteral(rule string) {
+	nList := 0
+	for _, fn := range h.P.Funcs() {
+		if fn.Pkg == nil || strings.HasSuffix(fn.Pkg.Pkg.Path(), "/cmd/raftctl") || strings.Contains(fn.Pkg.Pkg.Path(), "/example/") {
+			continue
+		}
+		core.Instrs(fn, func(in ssa.Instruction) {
+			c, ok := in.(ssa.CallInstruction)
+			if !ok {
+				return
+			}
+			sc := c.Common().StaticCallee()
+			if sc == nil || sc.Pkg == nil {
+				return
+			}
+			pkg, name := sc.Pkg.Pkg.Path(), sc.Name()
+			if (pkg == "path/filepath" || pkg == "path") && (name == "Glob" || name == "Match") {
+				_, isConst := c.Common().Args[0].(*ssa.Const)
+				h.C.Check(rule+" no-pattern-over-the-directory", h.name(fn)+" "+pkg+"."+name, isConst, h.pos(in),
+					"a storage directory is listed by matching a pattern built at run time: the directory's own path is read as part of the pattern (a path like node[1] matches nothing; on reopen the log, term/vote or snapshots are silently not found)")
+			}
+			if (pkg == "io/ioutil" || pkg == "os") && (name == "ReadDir" || name == "Readdir" || name == "Readdirnames") {
+				nList++
+			}
+		})
+	}
+	h.C.Floor(rule+" (directory reads)", nList, 2)
+	// the three listers reach a directory read
+	for _, f := range []string{"log:segments", "raft:openValue", "raft:findSnapshots"} {
+		fn := h.fn(f)
+		reads := false
+		for g := range h.P.Reachable(fn) {
+			core.Instrs(g, func(in ssa.Instruction) {
+				if c, ok := in.(ssa.CallInstruction); ok {
+					if sc := c.Common().StaticCallee(); sc != nil && sc.Pkg != nil && (sc.Name() == "ReadDir" || sc.Name() == "Readdir" || sc.Name() == "Readdirnames") {
+						reads = true
+					}
+				}
+			})
+		}
+		h.C.Check(rule+" lists-by-reading", h.name(fn), reads, h.fpos(fn), "the function that finds the stored files does not read the directory")
+	}
+}
+
+// lockReleasedByDeath (C10.11): C10 promises a restart after the process died
+// at any instant. The storage-directory lock must therefore not outlive its
+// owner: either it is an OS lock that dies with the process (flock/fcntl), or
+// every refusal (ErrLockExists) is preceded by an examination of the existing
+// lock's owner (the lock file is read). A plain file that only unlockDir
+// removes refuses every restart after a crash.
+func (h H) lockReleasedByDeath(rule string) {
+	fn := h.fn("raft:lockDir")
+	fi := h.P.Info(fn)
+	osLock := false
+	for g := range h.P.Reachable(fn) {
+		core.Instrs(g, func(in ssa.Instruction) {
+			if c, ok := in.(ssa.CallInstruction); ok {
+				if sc := c.Common().StaticCallee(); sc != nil && sc.Pkg != nil {
+					p, n := sc.Pkg.Pkg.Path(), sc.Name()
+					if (p == "syscall" || strings.HasSuffix(p, "/unix") || strings.HasSuffix(p, "/windows")) && (n == "Flock" || n == "FcntlFlock" || n == "LockFileEx") {
+						osLock = true
+					}
+				}
+			}
+		})
+	}
+	readsLock := func(in ssa.Instruction) bool {
+		c, ok := in.(ssa.CallInstruction)
+		if !ok {
+			return false
+		}
+		sc := c.Common().StaticCallee()
+		if sc == nil || sc.Pkg == nil {
+			return false
+		}
+		p, n := sc.Pkg.Pkg.Path(), sc.Name()
+		return (p == "os" || p == "io/ioutil") && (n == "ReadFile" || n == "Open" || n == "OpenFile") && len(c.Common().Args) > 0 && strings.Contains(fi.Sym(c.Common().Args[0]).String(), "lock")
+	}
+	nRefuse, examined := 0, true
+	core.Instrs(fn, func(in ssa.Instruction) {
+		st, ok := in.(*ssa.Store)
+		if !ok || !strings.Contains(fi.Sym(st.Val).String(), "ErrLockExists") {
+			return
+		}
+		nRefuse++
+		if !fi.PrecededBy(in, readsLock).OK {
+			examined = false
+		}
+	})
+	if nRefuse == 0 {
+		for _, r := range core.Returns(fn) {
+			if len(r.Results) == 1 && strings.Contains(fi.Sym(r.Results[0]).String(), "ErrLockExists") {
+				nRefuse++
+				if !fi.PrecededBy(r, readsLock).OK {
+					examined = false
+				}
+			}
+		}
+	}
+	h.C.Check(rule, "raft.lockDir", osLock || nRefuse > 0 && examined, h.fpos(fn),
+		fmt.Sprintf("the storage lock is a plain file that only unlockDir removes and whose owner nobody examines (OS lock released at process death: %v; refusals: %d, each after reading the existing lock: %v): after the process dies, every restart on the directory is refused with ErrLockExists", osLock, nRefuse, examined && nRefuse > 0))
+}
